@@ -1041,6 +1041,19 @@ pub fn gen(prop: &str, rng: &mut Rng, quick: bool, st: &mut Stats) -> Option<Vec
                 let (_, r) = fam(k);
                 let hexb = hex_bytes(&f.bytes);
                 c.push(format!("chk_foreign {r} {hexb}"));
+                // the Coq formalisation of the specification's lookup vs the independent reader, on present, absent and
+                // boundary ids
+                {
+                    let h = &f.header;
+                    let mut probe: Vec<u64> = f.run_bounds.iter().take(6).flat_map(|b| [b.saturating_sub(1), *b, b + 1]).collect();
+                    probe.extend(f.leaf_first_ids.iter().take(3));
+                    probe.extend([0, 1, u64::MAX, rng.spread(62)]);
+                    if f.bytes.len() < 60_000 {
+                        for id in probe {
+                            c.push(format!("slook {} {:x} {:x} {:x} {id:x} {hexb}", ["unknown", "none", "gzip", "brotli", "zstd"][h.icomp as usize % 5], h.root_off, h.root_len, h.leaf_off));
+                        }
+                    }
+                }
                 if o.n <= 400 {
                     let keys: Vec<u64> = f.tiles.keys().copied().collect();
                     let mut h = vec![format!("o:{}:u_u:{hexb}", &r[..1])];
